@@ -20,7 +20,7 @@ LEVEL_TEXT = {
  'C13': ('fault_enumeration', 'cancel injected at every loop step of generated runs (quick: <=10 points per case); loop stepped to quiescence without deliveries; leftovers / late starts are violations', 'crash-point enumeration (cancel at every loop iteration) on the virtual loop'),
  'C14': ('exploration', 'grammar check over the event history observed by recording (possibly gated) event managers on generated runs', 'hypothesis PBT, history-grammar invariant'),
  'C15': ('translation_validation', 'build_dag output compared for equality with an independent graph construction from the spec, plus declaration-order permutation', 'hypothesis PBT, independent re-implementation (differential) + metamorphic permutation'),
- 'C16': ('fault_enumeration', 'every applicable single-defect mutation (7 kinds x every reachable node) of generated valid programs must raise the paired error class', 'hypothesis PBT + exhaustive single-defect mutation enumeration'),
+ 'C16': ('fault_enumeration', 'every applicable single-defect mutation (8 kinds x every reachable node) of generated valid programs must raise the paired error class', 'hypothesis PBT + exhaustive single-defect mutation enumeration'),
  'C17': ('exploration', 'mode assignments under fake executors (equal outcomes), a sample on real thread/process pools, and six pool-registry states set up through the public API in subprocesses', 'hypothesis PBT, differential across execution modes, real pools sample, registry-state enumeration'),
  'C18': ('exploration', 'stateful model-based testing of the filesystem store against a dict over adversarial ids, both formats, several contexts', 'hypothesis stateful (RuleBasedStateMachine) vs dict model'),
  'C19': ('exploration', 'generated runs with a recording write-once store; saves compared with the reference finals', 'hypothesis PBT, recording write-once store, reference finals'),
